@@ -117,12 +117,14 @@ package grpc
 //@   ensures[C14] complete: unaryCfgOK(cfg)
 //@   ensures[C14] default_classifiers: isfunc(cfg.limitExceededResponseClassifier, "grpc.defaultLimitExceededResponseClassifier") && isfunc(cfg.clientResponseClassifer, "grpc.defaultClientResponseClassifier") && isfunc(cfg.serverResponseClassifer, "grpc.defaultServerResponseClassifier")
 //@   ensures[C14] default_limiter: dyntype(cfg.limiter, "*limiter.DefaultLimiter")
+//@   assigns cfg.limiter, cfg.limitExceededResponseClassifier, cfg.clientResponseClassifer, cfg.serverResponseClassifer
 
 //@ func streamDefaults
 //@   requires cfg: cfg != nil
 //@   ensures[C14] complete: cfg.recvLimiter != nil && cfg.sendLimiter != nil && cfg.recvLimitExceededResponseClassifier != nil && cfg.sendLimitExceededResponseClassifier != nil && cfg.clientResponseClassifer != nil && cfg.serverResponseClassifer != nil
 //@   ensures[C14] separate_limiters: ref(cfg.recvLimiter) != ref(cfg.sendLimiter) && dyntype(cfg.recvLimiter, "*limiter.DefaultLimiter") && dyntype(cfg.sendLimiter, "*limiter.DefaultLimiter")
 //@   ensures[C14] default_classifiers: isfunc(cfg.recvLimitExceededResponseClassifier, "grpc.defaultLimitExceededResponseClassifier") && isfunc(cfg.sendLimitExceededResponseClassifier, "grpc.defaultLimitExceededResponseClassifier") && isfunc(cfg.clientResponseClassifer, "grpc.defaultStreamClientResponseClassifier") && isfunc(cfg.serverResponseClassifer, "grpc.defaultStreamServerResponseClassifier")
+//@   assigns cfg.recvLimiter, cfg.sendLimiter, cfg.recvLimitExceededResponseClassifier, cfg.sendLimitExceededResponseClassifier, cfg.clientResponseClassifer, cfg.serverResponseClassifer
 
 // Option constructors return the closure that sets exactly their argument.
 //@ func WithLimiter
